@@ -563,10 +563,15 @@ class ExprMixin:
                 if d.box[0] == "counter":
                     return z3.Select(bv.arr, *coerce(item, bv.elem).comps()) != 0
             if container.cls in ("list[?]", "dict[?]", "set[?]"):
+                if self.lenient:
+                    return z3.Bool(fresh_name("opaque_in"))     # may have been filled by an earlier iteration of a cut loop
                 return z3.BoolVal(False)
             r = self.contains_extra(container, item, p)
             if r is not None:
                 return r
+        if self.lenient:
+            # membership in an unmodelled container: an arbitrary truth value (a pure read)
+            return z3.Bool(fresh_name("opaque_in"))
         raise Unsupported(f"`in` on {container!r}")
 
     def contains_extra(self, container, item, p):
@@ -762,6 +767,8 @@ class ExprMixin:
             if base.cls in ("list[?]",):
                 return [(p, Exc("IndexError", w))]
             if base.cls in ("dict[?]",):
+                if self.lenient:
+                    return [(p, VOpaque("item of unmodelled local dict")), (p.copy(), Exc("KeyError", w))]
                 return [(p, Exc("KeyError", w))]
             m = self.find_method(base.cls, "__getitem__")
             if m is not None:
